@@ -31,6 +31,9 @@ CHECKS = {
  'C05': dict(cat='exploration', tech='exhaustive differential typing table: _Generic selection and __builtin_types_compatible_p results emitted as data vs clang --target (3 targets) and gcc',
              text='All (operator, left kind, right kind) triples over 20 binary operators and 47 operand kinds (basic types, enum flavours, bit-fields of 10 widths), unary/assignment forms, literal typing over base x suffix x magnitude, hand-written pointer/member/decay/qualifier cases against near-miss types, random derived-type pairs and the redeclaration / pointer-assignment judgements derived from them.',
              note='exhaustive=true for the triple and literal tables only. Where gcc and clang disagree (bit-fields wider than int) the case is skipped on x86-64; GNU semantics of the compatibility built-in (top-level qualifier stripping) are kept out by comparing behind a pointer.', ref='4/C05'),
+ 'C14': dict(cat='exploration', tech='differential data-image comparison of literals vs clang --target/gcc objects and an independent Python encoder; exhaustive single-byte constants; invalid-input catalogue',
+             text='String literals and character constants built from random Unicode scalars of every UTF-8 length and plane boundary, all escape forms followed by digit-like characters, every prefix and prefix mixture in concatenations are emitted as data and compared with clang --target (three targets), gcc and a Python encoder; all single-byte character constants of every prefix are enumerated; invalid UTF-8 of every kind and out-of-range escapes must be rejected or (narrow strings) passed through unaltered, never re-encoded, never a crash.',
+             note='exhaustive=true for the single-byte constants only; where the encoder and the references disagree (generator bookkeeping) the case is skipped and listed.', ref='4/C14'),
  'C03': dict(cat='exploration', tech='online validator (re-implemented QBE parse/typecheck/SSA rules) over every accepted output; strace write-fault injection',
              text='Every module printed with exit status 0 (suite, corpus, generated, odd-shaped and mutated inputs, cproc\'s own sources; three targets) is parsed and checked by an independent IL validator; output faults are injected at the k-th write.',
              note='Trusted: vf.ilcheck (silent on the 159 stored .qbe files and the self-compiled IL); data sizes vs C objects are judged by C06/C07.', ref='4/C03'),
